@@ -18,3 +18,9 @@ def run(chk, program, tier):
                  ('UNIT-NORM', 'lower-case normal form'), ('UNIT-AFFINE', 'helper coefficients are the physical ones')):
         chk.rule(r, t)
     M.unit_rules(chk, program)
+    chk.rule('UNIT-APPLIED', 'every returned message went through apply_preferred_units (unless there are no preferences)')
+    M.unit_applied(chk, program)
+    chk.rule('STATE-DEPS', 'whether and how a message is converted does not depend on the messages decoded before it (C16)')
+    from .. import rules_iso
+    from .c16 import _Sub
+    rules_iso.state_deps(_Sub(chk, {'STATE-DEPS'}), program)
